@@ -136,35 +136,44 @@ variable [Add K] [Mul K] [Neg K] [Sub K] [Div K] [OfNat K 0] [OfNat K 1] [Decida
     harness renames `_nodeanon<N>` in order of first appearance) -/
 def dummyName (k : Nat) : String := "_d" ++ toString (k + 1)
 
+/-- `_s_model` of one line; `k` = number of dummy nodes handed out so far.  Returns the emitted lines and the new
+    counter.  (`two z voc`: `RLC._s_model` -- a plain `Z` when `Voc == 0`, else `Z n1 d ; V d n2 s Voc`.) -/
+def sModelElt (s : K) (k : Nat) (e : Elt K) : Net K × Nat :=
+  let two (z voc : K) : Net K × Nat :=
+    if voc = 0 then ([{ name := "Z" ++ e.name, ty := "Z", nodes := e.nodes, val := some z }], k)
+    else
+      let d := dummyName k
+      ([{ name := "Z" ++ e.name, ty := "Z", nodes := [e.n1, d], val := some z },
+        { name := "V" ++ e.name, ty := "V", nodes := [d, e.n2], kw := "s", val := some voc }], k + 1)
+  match e.ty, e.val with
+  | "R", some r => two r 0
+  | "NR", some r => two r 0
+  | "Z", some z => two z 0
+  | "Y", some y => two (1 / y) 0
+  | "C", some c => two (1 / (s * c)) ((e.ic.getD 0) / s)
+  | "L", some l => two (s * l) (-((e.ic.getD 0) * l))
+  | _, _ => ([e], k)
+
+def sModelFrom (s : K) : Nat → Net K → Net K
+  | _, [] => []
+  | k, e :: t => (sModelElt s k e).1 ++ sModelFrom s (sModelElt s k e).2 t
+
 /-- `Netlist.s_model(kind)` at the sample point `s` (`ac_model` is the same function at `s = jω`).
     Source VALUES are not modelled at this level (they are arbitrary time/Laplace expressions; the
     harness compares them through the solve-and-compare oracle); `val` of a source line is kept. -/
-def sModelNet (s : K) (net : Net K) : Net K :=
-  (net.foldl (fun (acc : Net K × Nat) e =>
-    let two (z voc : K) : Net K × Nat :=
-      if voc = 0 then (acc.1 ++ [{ name := "Z" ++ e.name, ty := "Z", nodes := e.nodes, val := some z }], acc.2)
-      else
-        let d := dummyName acc.2
-        (acc.1 ++ [{ name := "Z" ++ e.name, ty := "Z", nodes := [e.n1, d], val := some z },
-                   { name := "V" ++ e.name, ty := "V", nodes := [d, e.n2], kw := "s", val := some voc }], acc.2 + 1)
-    match e.ty, e.val with
-    | "R", some r => two r 0
-    | "NR", some r => two r 0
-    | "Z", some z => two z 0
-    | "Y", some y => two (1 / y) 0
-    | "C", some c => two (1 / (s * c)) ((e.ic.getD 0) / s)
-    | "L", some l => two (s * l) (-((e.ic.getD 0) * l))
-    | _, _ => (acc.1 ++ [e], acc.2)) ([], 0)).1
+def sModelNet (s : K) (net : Net K) : Net K := sModelFrom s 0 net
 
-/-- `Netlist.noise_model()` with the noise sources killed afterwards (`V._kill` ↦ `W`) -/
-def noiseModelKilled (net : Net K) : Net K :=
-  (net.foldl (fun (acc : Net K × Nat) e =>
+def noiseKilledFrom : Nat → Net K → Net K
+  | _, [] => []
+  | k, e :: t =>
     match e.ty, e.val with
     | "R", some r =>
-      let d := dummyName acc.2
-      (acc.1 ++ [{ name := "N" ++ e.name, ty := "NR", nodes := [e.n1, d], val := some r },
-                 { name := "W", ty := "W", nodes := [d, e.n2] }], acc.2 + 1)
-    | _, _ => (acc.1 ++ [e], acc.2)) ([], 0)).1
+      [{ name := "N" ++ e.name, ty := "NR", nodes := [e.n1, dummyName k], val := some r },
+       { name := "W", ty := "W", nodes := [dummyName k, e.n2] }] ++ noiseKilledFrom (k + 1) t
+    | _, _ => e :: noiseKilledFrom k t
+
+/-- `Netlist.noise_model()` with the noise sources killed afterwards (`V._kill` ↦ `W`) -/
+def noiseModelKilled (net : Net K) : Net K := noiseKilledFrom 0 net
 
 /-- `Netlist.noise_model()` itself, structurally: which resistors are split and where the noise
     sources sit (their values `sqrt(4 k_B T R)` are symbolic and not evaluated) -/
@@ -184,6 +193,24 @@ def killSources (net : Net K) : Net K :=
     if e.ty = "V" then { name := "W", ty := "W", nodes := e.nodes.take 2 }
     else if e.ty = "I" then { name := "O", ty := "O", nodes := e.nodes.take 2 }
     else e)
+
+/-- MEANING of a netlist line of the two-terminal fragment as evaluated components of Spec/Laws.lean.
+    `ν` sends node names to node indices -- names joined by wires must get the same index (wires are merged
+    nodes, as in MNA) -- and `β` sends component names to branch-current indices.  Lines outside the fragment
+    (wires, controlled sources, …) contribute nothing here. -/
+def Elt.toCpts (ν β : String → Nat) (e : Elt K) : List (Cpt K) :=
+  match e.ty, e.val with
+  | "R", some r => [.R (ν e.n1) (ν e.n2) r]
+  | "NR", some r => [.R (ν e.n1) (ν e.n2) r]
+  | "C", some c => [.Cap (ν e.n1) (ν e.n2) c e.ic]
+  | "L", some l => [.Ind (ν e.n1) (ν e.n2) (β e.name) l e.ic []]
+  | "V", some v => [.V (ν e.n1) (ν e.n2) (β e.name) v]
+  | "I", some i => [.I (ν e.n1) (ν e.n2) i]
+  | "Y", some y => [.Y (ν e.n1) (ν e.n2) y]
+  | "Z", some z => [.Y (ν e.n1) (ν e.n2) (1 / z)]
+  | _, _ => []
+
+def Net.toCpts (ν β : String → Nat) (net : Net K) : List (Cpt K) := net.flatMap (Elt.toCpts ν β)
 
 end arith
 
